@@ -140,6 +140,36 @@ fn worker_run(args: &Args, progress: Arc<AtomicU64>, current: Arc<Mutex<String>>
                 let e = if g.rng.chance(1, 2) { gen_directed(&mut g) } else { gen_random(&mut g) };
                 exprs.push(e);
             }
+            // families: a parent over two rule-directed children (both likely to be rewritten, the second
+            // often through a multi-step chain); children and parent are all members
+            if g.rng.chance(1, 2) {
+                let c1 = gen_directed(&mut g);
+                let mut c2 = gen_directed(&mut g);
+                for _ in 0..8 {
+                    if c1.get_type(g.ctx) == c2.get_type(g.ctx) {
+                        break;
+                    }
+                    c2 = gen_directed(&mut g);
+                }
+                if let (Some(w1), Some(w2)) = (c1.get_bv_type(g.ctx), c2.get_bv_type(g.ctx)) {
+                    let parent = if w1 == w2 {
+                        match g.rng.below(6) {
+                            0 => g.ctx.equal(c1, c2),
+                            1 => g.ctx.and(c1, c2),
+                            2 => g.ctx.or(c1, c2),
+                            3 => g.ctx.xor(c1, c2),
+                            4 => g.ctx.add(c1, c2),
+                            _ => g.ctx.greater_or_equal(c1, c2),
+                        }
+                    } else {
+                        g.ctx.concat(c1, c2)
+                    };
+                    exprs.push(c1);
+                    exprs.push(c2);
+                    exprs.push(parent);
+                }
+            }
+            let k = exprs.len();
             // explicit sharing: combine earlier members into later ones
             for j in 1..k {
                 if g.rng.chance(1, 2) {
